@@ -215,7 +215,7 @@ def build_mineral(key, A=None, f=None, regime=None):
 
 
 class UpdateTimeout(Exception):
-    """An update did not return within UPDATE_LIMIT_S (a normal update takes milliseconds)."""
+    """An update used more than UPDATE_LIMIT_S of CPU time (a normal update: milliseconds)."""
 
 
 UPDATE_LIMIT_S = 5.0
@@ -240,20 +240,23 @@ class time_limit:
                 from numba.core.compiler_lock import global_compiler_lock
 
                 if global_compiler_lock.is_locked():
-                    signal.setitimer(signal.ITIMER_REAL, self.seconds)
+                    signal.setitimer(signal.ITIMER_PROF, self.seconds)
                     return
             except Exception:
                 pass
             raise UpdateTimeout(f"no result within {self.seconds} s")
 
-        self._old = signal.signal(signal.SIGALRM, handler)
-        signal.setitimer(signal.ITIMER_REAL, self.seconds)
+        # CPU time of this process (ITIMER_PROF), not wall time: the limit must not depend
+        # on how loaded the machine is (a wall-clock limit produced spurious timeouts, and
+        # thereby irreproducible "violations", when 40+ processes shared 16 cores)
+        self._old = signal.signal(signal.SIGPROF, handler)
+        signal.setitimer(signal.ITIMER_PROF, self.seconds)
 
     def __exit__(self, *exc):
         import signal
 
-        signal.setitimer(signal.ITIMER_REAL, 0)
-        signal.signal(signal.SIGALRM, self._old)
+        signal.setitimer(signal.ITIMER_PROF, 0)
+        signal.signal(signal.SIGPROF, self._old)
         return False
 
 
@@ -484,7 +487,7 @@ def V(res, key, clause, detail, **kw):
     res["viol"].append({"clause": clause, "key": k, "detail": detail})
 
 
-def twin_explore(res, key, prm_a, prm_b, root, letters, depth, flow_a, flow_b, time_b, compare):
+def twin_explore(res, key, prm_a, prm_b, root, letters, depth, flow_a, flow_b, time_b, compare, solver_kw=None):
     """BFS where every state carries a primary mineral (st.m, st.F) and a twin
     (st.twin = {'m':..., 'F':...}).  flow_a(name) / flow_b(name) give the letter's flow for
     each member, time_b maps primary times to twin times.
@@ -510,11 +513,11 @@ def twin_explore(res, key, prm_a, prm_b, root, letters, depth, flow_a, flow_b, t
         res["n"] += 2
         ea = eb = None
         try:
-            Fa, ma = update_mon(child.m, prm_a, child.F, fa, st.t, t1)
+            Fa, ma = update_mon(child.m, prm_a, child.F, fa, st.t, t1, **(solver_kw or {}))
         except Exception as e:  # noqa
             ea = e
         try:
-            Fb, mb = update_mon(child.twin["m"], prm_b, child.twin["F"], fb, time_b(st.t), time_b(t1))
+            Fb, mb = update_mon(child.twin["m"], prm_b, child.twin["F"], fb, time_b(st.t), time_b(t1), **(solver_kw or {}))
         except Exception as e:  # noqa
             eb = e
         if ea is not None or eb is not None:
@@ -572,6 +575,17 @@ def gen_cases_c04(tier):
         for tw in c04_twins(tier):
             kk = dict(k, twin=tw, depth=2 if tier == "quick" else 3)
             keys.append(kk)
+    # The same exploration at tight solver tolerances (rtol 1e-9, atol 1e-11 through the
+    # public **kwargs of update_orientations) from the default roots: both members then
+    # converge to the true solution, so frame indifference of the MODEL is compared sharply,
+    # including the volume fractions.  With the default tolerances a rotated frame takes
+    # different solver steps (atol is per component) and the fast boundary-migration
+    # dynamics (M* = 125) amplify tolerance-level differences of the fractions beyond any
+    # fixed bound; fractions are therefore not compared for frame twins at default tolerance.
+    for k in root_keys(tier, ["disl", "yield"], dev=0, prms=C04_PRMS):
+        for tw in c04_twins(tier):
+            if tw.startswith("Q:"):
+                keys.append(dict(k, twin=tw, depth=2, tol="tight"))
     return keys
 
 
@@ -611,9 +625,13 @@ def run_case_c04(key):
         mapA = lambda A: np.array([S[s] @ A[i] for i, s in enumerate(assign)])  # noqa
         mapF = lambda F: F  # noqa
     cl = res["clauses"]
+    tight = key.get("tol") == "tight"
+    solver_kw = {"rtol": 1e-9, "atol": 1e-11} if tight else None
 
     def compare(parent, child, hist, clean):
         bound = ode_bound(child.N, child.strain)
+        if tight:
+            bound = 1e-5 * child.N
         a, b = child.m, child.twin["m"]
         dA = df = 0.0
         if clean.any():
@@ -621,7 +639,9 @@ def run_case_c04(key):
             dA = float(np.abs(b.orientations[-1] - mapA(a.orientations[-1]))[clean].max())
             if not dA <= bound:
                 V(res, key, "texture_equivariant", {"dev": dA, "bound": bound}, hist=hist)
-        if clean.all():
+        if clean.all() and kind == "Q" and not tight:
+            res["notes"]["fraction_compare_skipped_default_tolerance"] = res["notes"].get("fraction_compare_skipped_default_tolerance", 0) + 1
+        elif clean.all():
             cl["fractions_invariant"] = cl.get("fractions_invariant", 0) + 1
             df = float(np.abs(b.fractions[-1] - a.fractions[-1]).max())
             if not df <= bound:
@@ -630,13 +650,14 @@ def run_case_c04(key):
         dF = float(np.abs(child.twin["F"] - mapF(child.F)).max() / max(1.0, np.abs(child.F).max()))
         if not dF <= bound:
             V(res, key, "F_equivariant", {"dev": dF, "bound": bound}, hist=hist)
-        for nm, v in (("max_texture_dev", dA), ("max_fraction_dev", df), ("max_F_dev", dF)):
+        sfx = "_tight" if tight else ""
+        for nm, v in (("max_texture_dev" + sfx, dA), ("max_fraction_dev" + sfx, df), ("max_F_dev" + sfx, dF)):
             if np.isfinite(v):
                 res["notes"][nm] = max(res["notes"].get(nm, 0.0), v)
         if not np.array_equal(a.orientations[-1], a.orientations[-2]):
             res["nontrivial"].append(canon(child))
 
-    obs = twin_explore(res, key, prm, prm, root, STEP_LETTERS, key["depth"], flow, fb_, lambda t: t, compare)
+    obs = twin_explore(res, key, prm, prm, root, STEP_LETTERS, key["depth"], flow, fb_, lambda t: t, compare, solver_kw=solver_kw)
     res["outcomes"] += obs[:40]
     res["obs"] = digest(*obs)
     res["sample"] = {"case": key, "states": res["states"], "transitions": res["trans"]}
